@@ -151,6 +151,138 @@ fn dk(k: &KD) -> DK {
     DK(k.k, k.tag)
 }
 
+/// Structured element types: keys `(u8, u8)` and values `Option<(u8, u8)>`, whose own pretty Debug
+/// spans several lines, so that nesting/indentation of `{:#?}` is exercised. The container is
+/// rebuilt from the state's (key, tag, value) sequence; expected strings come from std's builders
+/// over the entry sequence the container itself reports (iteration order is not assumed).
+fn structured<const N: usize>(order: &[(DK, DV)], cx: &mut Ctx) {
+    type K2 = (u8, u8);
+    type V2 = Option<(u8, u8)>;
+    let mk_v = |v: u8| -> V2 { if v % 2 == 0 { Some((v, v + 1)) } else { None } };
+    let mut m: Map<K2, V2, N> = Map::new();
+    let mut s: Set<K2, N> = Set::new();
+    for (k, v) in order {
+        m.insert((k.0, k.1), mk_v(v.0));
+        s.insert((k.0, k.1));
+    }
+    cx.here.op = "Debug of containers and iterators with structured (multi-line) elements".into();
+    struct M<'a>(Vec<(&'a K2, &'a V2)>);
+    impl fmt::Debug for M<'_> {
+        fn fmt(&self, f: &mut fmt::Formatter<'_>) -> fmt::Result {
+            f.debug_map().entries(self.0.iter().map(|(k, v)| (*k, *v))).finish()
+        }
+    }
+    struct S<'a>(Vec<&'a K2>);
+    impl fmt::Debug for S<'_> {
+        fn fmt(&self, f: &mut fmt::Formatter<'_>) -> fmt::Result {
+            f.debug_set().entries(self.0.iter()).finish()
+        }
+    }
+    macro_rules! same {
+        ($what:expr, $got:expr, $want:expr) => {{
+            let (g, w) = ($got, $want);
+            cx.check(PM, g == w, || format!("{}: rendered {g:?}, std renders the same entries as {w:?}", $what));
+        }};
+    }
+    let mm = M(m.iter().collect());
+    same!("Map {:?} (structured elements)", format!("{m:?}"), format!("{mm:?}"));
+    same!("Map {:#?} (structured elements)", format!("{m:#?}"), format!("{mm:#?}"));
+    same!("Map {:12?} (structured elements)", format!("{m:12?}"), format!("{mm:12?}"));
+    same!("Map {:#12?} (structured elements)", format!("{m:#12?}"), format!("{mm:#12?}"));
+    let ss = S(s.iter().collect());
+    same!("Set {:?} (structured elements)", format!("{s:?}"), format!("{ss:?}"));
+    same!("Set {:#?} (structured elements)", format!("{s:#?}"), format!("{ss:#?}"));
+    // nested containers: a map whose values are sets
+    {
+        let mut outer: Map<u8, Set<K2, N>, 2> = Map::new();
+        outer.insert(1, s.clone());
+        outer.insert(2, Set::new());
+        struct O<'a, const N: usize>(&'a Map<u8, Set<K2, N>, 2>);
+        impl<const N: usize> fmt::Debug for O<'_, N> {
+            fn fmt(&self, f: &mut fmt::Formatter<'_>) -> fmt::Result {
+                f.debug_map().entries(self.0.iter().map(|(k, v)| (k, S(v.iter().collect())))).finish()
+            }
+        }
+        same!("nested Map<u8, Set> {:#?}", format!("{outer:#?}"), format!("{:#?}", O(&outer)));
+        same!("nested Map<u8, Set> {:?}", format!("{outer:?}"), format!("{:?}", O(&outer)));
+    }
+    // iterators at every prefix: what they show must be std's list rendering of what they go on to yield
+    let n = order.len();
+    for j in 0..=n {
+        let mut it = m.iter();
+        let mut ks = m.keys();
+        let mut vs = m.values();
+        let mut si = s.iter();
+        for _ in 0..j {
+            it.next();
+            ks.next();
+            vs.next();
+            si.next();
+        }
+        same!(format!("Iter {{:#?}} after {j} items (structured elements)"), format!("{it:#?}"), format!("{:#?}", it.clone().collect::<Vec<_>>()));
+        same!(format!("Iter {{:?}} after {j} items (structured elements)"), format!("{it:?}"), format!("{:?}", it.clone().collect::<Vec<_>>()));
+        same!(format!("Keys {{:#?}} after {j} items (structured elements)"), format!("{ks:#?}"), format!("{:#?}", ks.clone().collect::<Vec<_>>()));
+        same!(format!("Values {{:#?}} after {j} items (structured elements)"), format!("{vs:#?}"), format!("{:#?}", vs.clone().collect::<Vec<_>>()));
+        let mut mm2 = m.clone();
+        let mut im = mm2.iter_mut();
+        for _ in 0..j {
+            im.next();
+        }
+        let shown = format!("{im:#?}");
+        let rest: Vec<(K2, V2)> = im.map(|(k, v)| (*k, *v)).collect();
+        same!(format!("IterMut {{:#?}} after {j} items (structured elements)"), shown, format!("{:#?}", rest.iter().map(|(k, v)| (k, v)).collect::<Vec<_>>()));
+        let mut vm = mm2.values_mut();
+        for _ in 0..j {
+            vm.next();
+        }
+        let shown = format!("{vm:#?}");
+        let rest: Vec<V2> = vm.map(|v| *v).collect();
+        same!(format!("ValuesMut {{:#?}} after {j} items (structured elements)"), shown, format!("{:#?}", rest.iter().collect::<Vec<_>>()));
+        let mut ii = m.clone().into_iter();
+        for _ in 0..j {
+            ii.next();
+        }
+        let shown = format!("{ii:#?}");
+        let mut rest: Vec<(K2, V2)> = ii.collect();
+        // IntoIter may show its remaining entries in storage order while yielding them in another
+        let parsed_ok = {
+            let fwd = format!("{:#?}", rest.iter().map(|(k, v)| (k, v)).collect::<Vec<_>>());
+            rest.reverse();
+            let bwd = format!("{:#?}", rest.iter().map(|(k, v)| (k, v)).collect::<Vec<_>>());
+            shown == fwd || shown == bwd
+        };
+        cx.check(PM, parsed_ok, || format!("IntoIter {{:#?}} after {j} items (structured elements) is {shown:?}, not std's list rendering of the remaining entries {rest:?}"));
+        let mut mm3 = m.clone();
+        let mut dr = mm3.drain();
+        for _ in 0..j {
+            dr.next();
+        }
+        let shown = format!("{dr:#?}");
+        let rest: Vec<(K2, V2)> = dr.collect();
+        same!(format!("Drain {{:#?}} after {j} items (structured elements)"), shown, format!("{:#?}", rest.iter().map(|(k, v)| (k, v)).collect::<Vec<_>>()));
+        // set algebra iterators against a right operand holding every other element
+        let mut r: Set<K2, N> = Set::new();
+        for (i, (k, _)) in order.iter().enumerate() {
+            if i % 2 == 0 {
+                r.insert((k.0, k.1));
+            }
+        }
+        macro_rules! alg {
+            ($name:expr, $mk:expr) => {{
+                let mut a = $mk;
+                for _ in 0..j {
+                    a.next();
+                }
+                same!(format!("{} {{:#?}} after {j} items (structured elements)", $name), format!("{a:#?}"), format!("{:#?}", a.clone().collect::<Vec<_>>()));
+            }};
+        }
+        alg!("Difference", s.difference(&r));
+        alg!("Intersection", s.intersection(&r));
+        alg!("Union", s.union(&r));
+        alg!("SymmetricDifference", s.symmetric_difference(&r));
+    }
+}
+
 fn per_state<const N: usize>(sys: &MapSys<Kx, Vx, N>, path: &[u32], cx: &mut Ctx) {
     let mut b = sys.build(path, cx);
     let entries: Vec<(KD, VD)> = b.bx.c.iter().map(|(k, v)| (k.desc(), v.desc())).collect();
@@ -165,6 +297,7 @@ fn per_state<const N: usize>(sys: &MapSys<Kx, Vx, N>, path: &[u32], cx: &mut Ctx
         cx.check(PM, e == model_sorted, || "iteration disagrees with the model (state not trustworthy)".to_string());
     }
     let order: Vec<(DK, DV)> = entries.iter().map(|(k, v)| (dk(k), DV(v.v))).collect();
+    structured::<N>(&order, cx);
     let c0 = pl::counts();
     cx.here.op = "Map Debug/Display".into();
     cx.evaluations += 1;
@@ -183,6 +316,18 @@ fn per_state<const N: usize>(sys: &MapSys<Kx, Vx, N>, path: &[u32], cx: &mut Ctx
         let got = format!("{m}");
         let want = format!("{{{}}}", order.iter().map(|(k, v)| format!("{k}: {v}")).collect::<Vec<_>>().join(", "));
         cx.check(PM, got == want, || format!("Map Display is {got:?}, expected {want:?}"));
+        // format specifications must not change Display (it writes its pieces itself) and must
+        // act on Debug exactly as they act on std's builders
+        macro_rules! specs {
+            ($($spec:literal),*) => {$(
+                let got = format!(concat!("{:", $spec, "}"), m);
+                cx.check(PM, got == want, || format!("Map Display with spec {:?} is {got:?}, expected {want:?}", $spec));
+                let got = format!(concat!("{:", $spec, "?}"), m);
+                let w = format!(concat!("{:", $spec, "?}"), AsMap(&order));
+                cx.check(PM, got == w, || format!("Map Debug with spec {:?} is {got:?}, std renders {w:?}", $spec));
+            )*};
+        }
+        specs!("40", ">40", "*^7", ".2", "+", "#", "012", "<#12");
     }
     // borrowing iterators at every prefix
     let kv_items: Vec<Item> = order.iter().map(|(k, v)| Item::KV(*k, *v)).collect();
@@ -314,6 +459,16 @@ fn per_state<const N: usize>(sys: &MapSys<Kx, Vx, N>, path: &[u32], cx: &mut Ctx
         let got = format!("{s}");
         let want = format!("{{{}}}", sorder.iter().map(|k| format!("{k}")).collect::<Vec<_>>().join(", "));
         cx.check(PM, got == want, || format!("Set Display is {got:?}, expected {want:?}"));
+        macro_rules! sspecs {
+            ($($spec:literal),*) => {$(
+                let got = format!(concat!("{:", $spec, "}"), s);
+                cx.check(PM, got == want, || format!("Set Display with spec {:?} is {got:?}, expected {want:?}", $spec));
+                let got = format!(concat!("{:", $spec, "?}"), s);
+                let w = format!(concat!("{:", $spec, "?}"), AsSet(&sorder));
+                cx.check(PM, got == w, || format!("Set Debug with spec {:?} is {got:?}, std renders {w:?}", $spec));
+            )*};
+        }
+        sspecs!("40", ">40", "*^7", ".2", "+", "#", "012", "<#12");
         // algebra iterators against every subset of the universe as right operand
         let nk = sys.nk;
         for mask in 0..(1u16 << nk) {
